@@ -96,18 +96,18 @@ var mediumNames = []string{"go-array", "c-buffer", "hdf5-roundtrip"}
 
 // carry moves a state row through the chosen durable medium and returns the array the next
 // process lifetime starts from.
-func carry(medium int, row []float64, seq int) (data.ND2Float64, error) {
+func carry(medium int, row []float64, n, width int, seq int) (data.ND2Float64, error) {
 	if len(row) == 0 {
 		// a model without carried values (Lag with zero lag): nothing to persist
-		return mk2(false, 1, 0, nil), nil
+		return mk2(false, n, 0, nil), nil
 	}
 	switch medium {
 	case mediumC:
-		return mk2(true, 1, len(row), row), nil
+		return mk2(true, n, width, row), nil
 	case mediumH5:
 		fn := "/sim/states.h5"
 		ref := owio.H5RefFloat64{Filename: fn, Dataset: fmt.Sprintf("/MODELS/m/states%d", seq)}
-		if err := ref.Write(mk2(false, 1, len(row), row)); err != nil {
+		if err := ref.Write(mk2(false, n, width, row)); err != nil {
 			return nil, err
 		}
 		back, err := ref.Load()
@@ -116,37 +116,44 @@ func carry(medium int, row []float64, seq int) (data.ND2Float64, error) {
 		}
 		return back.(data.ND2Float64), nil
 	}
-	return mk2(false, 1, len(row), row), nil
+	return mk2(false, n, width, row), nil
 }
 
-// runSegments executes the period in consecutive process lifetimes cut at the given points.
-func runSegments(name string, desc sim.ModelDescription, col []float64, maxDim int, init []float64, inputs [][]float64, T int, cuts []int, media []int) (out [][]float64, fin []float64, err error) {
+// runSegments executes the period in consecutive process lifetimes cut at the given points, for
+// all cells of the case in one vectorised Run per segment (N x width state matrix carried through
+// the medium).
+func runSegments(name string, desc sim.ModelDescription, cols [][]float64, maxDim int, init []float64, width int, inputs [][][]float64, T int, cuts []int, media []int) (out [][]float64, fin []float64, err error) {
 	nOut := len(desc.Outputs)
-	out = make([][]float64, nOut)
+	N := len(cols)
+	out = make([][]float64, N*nOut)
 	state := cloneF(init)
 	bounds := append(append([]int{0}, cuts...), T)
 	for s := 0; s+1 < len(bounds); s++ {
 		a, b := bounds[s], bounds[s+1]
-		m := oneCellModel(name, desc, col, maxDim) // brand-new object, parameters applied again
+		m := setupModel(name, paramMatrix(false, cols)) // brand-new object, parameters applied again
 		medium := mediumGo
 		if s > 0 && s-1 < len(media) {
 			medium = media[s-1]
 		}
-		st, e := carry(medium, state, s)
+		st, e := carry(medium, state, N, width, s)
 		if e != nil {
 			return nil, nil, e
 		}
 		nIn := len(desc.Inputs)
-		iv := make([]float64, nIn*(b-a))
-		for k := 0; k < nIn; k++ {
-			copy(iv[k*(b-a):(k+1)*(b-a)], inputs[k][a:b])
+		iv := make([]float64, N*nIn*(b-a))
+		for c := 0; c < N; c++ {
+			for k := 0; k < nIn; k++ {
+				copy(iv[(c*nIn+k)*(b-a):], inputs[c][k][a:b])
+			}
 		}
-		in := mk3(false, 1, nIn, b-a, iv)
-		o := mk3(false, 1, nOut, b-a, nil)
+		in := mk3(false, N, nIn, b-a, iv)
+		o := mk3(false, N, nOut, b-a, nil)
 		m.Run(in, st, o)
 		fo := flat3(o)
-		for k := 0; k < nOut; k++ {
-			out[k] = append(out[k], fo[k*(b-a):(k+1)*(b-a)]...)
+		for c := 0; c < N; c++ {
+			for k := 0; k < nOut; k++ {
+				out[c*nOut+k] = append(out[c*nOut+k], fo[(c*nOut+k)*(b-a):(c*nOut+k+1)*(b-a)]...)
+			}
 		}
 		state = flat2(st)
 	}
@@ -170,13 +177,33 @@ func engineSplit(rc *RunCtx) *Outcome {
 	desc := sim.Catalog[name]().Description()
 	maxT := 32
 	T := 1 + sizeDraw(w, maxT-1, 90)
-	cols, maxDim := drawColumns(w, name, 1)
+	long := w.Choose(250) == 249
+	if long {
+		// a very long series (counters, budgets and accumulated drift only show after thousands of
+		// steps); only a few crash schedules are run on it
+		T = 1500 + w.Choose(3000)
+	}
+	N := 1
+	if w.Bool(35) {
+		N = 2 + w.Choose(2)
+	}
+	cols, maxDim := drawColumnsMixed(w, name, N)
 	col := cols[0]
 	sub, fixInputs := subDomain(w, name, desc, col)
-	inputs := domains.GenInputs(w, name, col, maxDim, T)
-	if fixInputs != nil {
-		fixInputs(inputs)
+	for c := 1; c < N; c++ {
+		// all cells of a case stay in one sub-domain (a known finding covers exactly one)
+		s2, _ := subDomainForce(name, desc, cols[c], sub)
+		_ = s2
 	}
+	inputsAll := make([][][]float64, N)
+	for c := 0; c < N; c++ {
+		inputsAll[c] = domains.GenInputs(w, name, cols[c], maxDim, T)
+		if fixInputs != nil {
+			fixInputs(inputsAll[c])
+		}
+	}
+	inputs := inputsAll[0]
+	_ = inputs
 	warm := w.Bool(50)
 	nMulti := 4
 	if rc.Tier == "thorough" {
@@ -184,15 +211,21 @@ func engineSplit(rc *RunCtx) *Outcome {
 	}
 	// crash schedules: every single crash point, the 1-step segmentation, sampled multi-crash
 	var schedules [][]int
-	for t := 1; t < T; t++ {
-		schedules = append(schedules, []int{t})
-	}
-	all := make([]int, 0, T-1)
-	for t := 1; t < T; t++ {
-		all = append(all, t)
-	}
-	if T > 2 {
-		schedules = append(schedules, all)
+	if long {
+		for k := 0; k < 3; k++ {
+			schedules = append(schedules, []int{1 + rc.S.Choose(T-1)})
+		}
+	} else {
+		for t := 1; t < T; t++ {
+			schedules = append(schedules, []int{t})
+		}
+		all := make([]int, 0, T-1)
+		for t := 1; t < T; t++ {
+			all = append(all, t)
+		}
+		if T > 2 {
+			schedules = append(schedules, all)
+		}
 	}
 	for k := 0; k < nMulti && T > 3; k++ {
 		n := 2 + rc.S.Choose(4)
@@ -209,27 +242,45 @@ func engineSplit(rc *RunCtx) *Outcome {
 			schedules = append(schedules, cuts)
 		}
 	}
-	o.Sample = map[string]interface{}{"model": name, "sub_domain": sub, "timesteps": T, "warm_states": warm, "crash_schedules": len(schedules),
+	o.Sample = map[string]interface{}{"model": name, "cells": N, "sub_domain": sub, "timesteps": T, "warm_states": warm, "crash_schedules": len(schedules),
 		"parameters": jfs(col), "example_schedule": schedules[len(schedules)-1]}
 	tol := tolFor(name)
 	key := name + "/" + sub
 
 	hdf5.Reset()
 	s := simrt.Run(rc.T, simrt.Config{}, simrt.ReplayTape(nil), func() {
-		init := flat2(oneCellModel(name, desc, col, maxDim).InitialiseStates(1))
+		// the model's own initial states for all cells (the state array is sized from cell 0, which
+		// holds the widest state vector; narrower rows are zero padded)
+		ist := setupModel(name, paramMatrix(false, cols)).InitialiseStates(N)
+		width := ist.Len(1)
+		init := flat2(ist)
 		if warm {
 			wt := 1 + w.Choose(8)
-			_, init = refRunRaw(name, desc, col, maxDim, init, domains.GenInputs(w, name, col, maxDim, wt), wt)
+			wIn := make([][][]float64, N)
+			for c := 0; c < N; c++ {
+				wIn[c] = domains.GenInputs(w, name, cols[c], maxDim, wt)
+			}
+			_, init, _ = runSegments(name, desc, cols, maxDim, init, width, wIn, wt, nil, nil)
 		}
-		uOutFlat, uFin := refRunRaw(name, desc, col, maxDim, init, inputs, T)
+		uOut, uFin, _ := runSegments(name, desc, cols, maxDim, init, width, inputsAll, T, nil, nil)
 		nOut := len(desc.Outputs)
+		if N > 1 {
+			o.probe("multi_cell_case")
+			w0 := len(initialStateRow(name, desc, cols[0], maxDim))
+			for c := 1; c < N; c++ {
+				if len(initialStateRow(name, desc, cols[c], maxDim)) != w0 {
+					o.probe("cells_with_different_state_widths(zero_padded_rows)")
+					break
+				}
+			}
+		}
 		for si, cuts := range schedules {
 			media := make([]int, len(cuts))
 			for i := range media {
 				media[i] = rc.S.Choose(numMedia)
 				o.fault("crash+restart via " + mediumNames[media[i]])
 			}
-			out, fin, err := runSegments(name, desc, col, maxDim, init, inputs, T, cuts, media)
+			out, fin, err := runSegments(name, desc, cols, maxDim, init, width, inputsAll, T, cuts, media)
 			o.Evals++
 			h := uint64(si)
 			for _, c := range cuts {
@@ -243,12 +294,12 @@ func engineSplit(rc *RunCtx) *Outcome {
 				o.fail("medium-error", key+"/medium", "%s: carrying states through the durable medium failed: %v", name, err)
 				return
 			}
-			for k := 0; k < nOut; k++ {
+			for ck := 0; ck < N*nOut; ck++ {
 				for t := 0; t < T; t++ {
 					o.Checks++
-					if g, e := out[k][t], uOutFlat[k*T+t]; !closeRel(g, e, tol) {
-						o.fail("split-output-differs", key, "%s [%s]: output %s[%d] = %v when the period is run in segments cut at %v, %v in the uninterrupted run (T=%d, first difference)",
-							name, sub, desc.Outputs[k], t, g, cuts, e, T)
+					if g, e := out[ck][t], uOut[ck][t]; !closeRel(g, e, tol) {
+						o.fail("split-output-differs", key, "%s [%s]: cell %d of %d output %s[%d] = %v when the period is run in segments cut at %v, %v in the uninterrupted run (T=%d, first difference)",
+							name, sub, ck/nOut, N, desc.Outputs[ck%nOut], t, g, cuts, e, T)
 						return
 					}
 				}
@@ -275,8 +326,60 @@ func engineSplit(rc *RunCtx) *Outcome {
 		o.fail("no-termination", key+"/"+s.Outcome, "%s: %s; blocked: %v", name, s.Outcome, s.Blocked)
 	}
 	o.probe("model:" + name)
+	if long {
+		o.probe("very_long_series(1500-4500_steps)")
+	}
 	if warm {
 		o.probe("warm_start_states")
 	}
 	return o
+}
+
+// subDomainForce puts a further cell's parameter column into the given sub-domain.
+func subDomainForce(name string, desc sim.ModelDescription, col []float64, sub string) (string, bool) {
+	switch name {
+	case "Sacramento":
+		if sub == "uh-without-memory" {
+			for _, p := range []string{"uh2", "uh3", "uh4", "uh5"} {
+				col[paramIndex(desc, p)] = 0
+			}
+		} else if col[paramIndex(desc, "uh2")]+col[paramIndex(desc, "uh3")]+col[paramIndex(desc, "uh4")]+col[paramIndex(desc, "uh5")] == 0 {
+			col[paramIndex(desc, "uh2")] = 0.1
+		}
+	case "InstreamDissolvedNutrientDecay":
+		if sub == "decay-disabled" {
+			col[paramIndex(desc, "doDecay")] = 0
+		} else {
+			col[paramIndex(desc, "doDecay")] = 1
+		}
+	}
+	return sub, true
+}
+
+// drawColumnsMixed draws one parameter column per cell; for models with a variable-length state
+// vector the cells may differ in width, with the widest in cell 0 (what InitialiseStates and a
+// rectangular state dataset support).
+func drawColumnsMixed(w *simrt.Tape, name string, n int) (cols [][]float64, maxDim int) {
+	if domains.IsDimensioned(name) {
+		maxDim = 2 + w.Choose(4)
+	}
+	for j := 0; j < n; j++ {
+		force := 0
+		if j == 0 && maxDim > 0 {
+			force = maxDim
+		}
+		cols = append(cols, domains.GenParams(w, name, maxDim, force))
+	}
+	// widest state vector first
+	best := 0
+	for j := range cols {
+		if len(initialStateRow(name, sim.Catalog[name]().Description(), cols[j], maxDim)) > len(initialStateRow(name, sim.Catalog[name]().Description(), cols[best], maxDim)) {
+			best = j
+		}
+	}
+	if best != 0 {
+		// keep the full-table column first for dimensioned models (none of them has variable states)
+		cols[0], cols[best] = cols[best], cols[0]
+	}
+	return
 }
